@@ -263,6 +263,140 @@ def one_case(ctx, binary, drv10, max_cells):
                     "worst_relative_difference_to_sequential": worst_all, "tolerance": tol})
 
 
+# ------------------------------------------------------------------ untraced stress runs under scheduling jitter
+# With CMAC_VERIF_TRACE set the release of the children of a finished task runs inside the hook's global mutex,
+# which serialises exactly the code in which a scheduling race would show.  These runs therefore use NO trace:
+# only the H1 yield hook (LD_PRELOAD harness/c10_jitter.cpp) and the snapshot the code writes itself.
+STRESS_TOL = 1.e-11       # final state after ~15 steps, N threads vs 1 thread (measured on /repo: <= 2e-15)
+JITTER_LIB = [None]
+SNAP_TOOL = [None]
+
+
+def jitter_lib():
+    import os
+    os.makedirs(vlib.BIN, exist_ok=True)
+    out = os.path.join(vlib.BIN, "libc10_jitter.so")
+    src = os.path.join(vlib.VERIF, "harness", "c10_jitter.cpp")
+    if not os.path.exists(out) or os.path.getmtime(out) < os.path.getmtime(src):
+        rc, o = vlib.sh(["g++", "-O1", "-shared", "-fPIC", "-o", out + ".tmp", src])
+        if rc != 0:
+            raise RuntimeError("jitter library does not compile: " + o[-1000:])
+        os.replace(out + ".tmp", out)
+    return os.path.realpath(out)
+
+
+def stress_run(binary, setup, threads, jitter, timeout=60):
+    """one untraced run to its natural end; returns (status, {cell: [rho, vx, vy, vz, P]} or None, log tail)"""
+    import os
+    import shutil
+    import tempfile
+    if JITTER_LIB[0] is None:
+        JITTER_LIB[0] = jitter_lib()
+        SNAP_TOOL[0] = vlib.build_harness("c10_snap")
+    d = tempfile.mkdtemp(prefix="verif_c10s_")
+    try:
+        with open(os.path.join(d, "blocks.yml"), "w") as f:
+            f.write(setup["blocks"])
+        env = {}
+        if jitter:
+            env["LD_PRELOAD"] = JITTER_LIB[0]
+            env["CMAC_VERIF_JITTER10"] = jitter
+        res = simrun.run_sim(binary, setup["param"], ["--task-based-rhd"], threads=threads, timeout=timeout, trace=False, env=env, workdir=d)
+        if res["timed_out"]:
+            return "hang", None, res["log"][-400:]
+        if res["rc"] != 0:
+            return "crash(%s)" % res["rc"], None, res["log"][-400:]
+        snaps = sorted(f for f in os.listdir(d) if f.startswith("snap") and f.endswith(".hdf5"))
+        if not snaps:
+            return "no-snapshot", None, res["log"][-400:]
+        rc, out, err = vlib.run_exe(SNAP_TOOL[0], "", args=[os.path.join(d, snaps[-1])])
+        data = {}
+        for l in out.split("\n"):
+            w = l.split()
+            if len(w) > 3:
+                data[w[0]] = (int(w[1]), int(w[2]), [vlib.bits2f(x) for x in w[3:]])
+        need = ("Coordinates", "Density", "Velocities", "Pressure")
+        if any(k not in data for k in need):
+            return "bad-snapshot", None, out[:300]
+        n = data["Coordinates"][0]
+        state = {}
+        for i in range(n):
+            X = tuple(round(data["Coordinates"][2][3 * i + k] * setup["ncell"][k] / setup["box"][k] - 0.5) for k in range(3))
+            state[X] = [data["Density"][2][i]] + data["Velocities"][2][3 * i:3 * i + 3] + [data["Pressure"][2][i]]
+        steps = sum(1 for l in res["log"].split("\n") if "Starting hydro step " in l)
+        return "ok:%d" % steps, state, ""
+    finally:
+        shutil.rmtree(d, ignore_errors=True)
+
+
+def stress_compare(ref, st, g):
+    sc_rho = max(abs(v[0]) for v in ref.values())
+    sc_P = max(abs(v[4]) for v in ref.values())
+    sc_v = max(abs(v[1]) + abs(v[2]) + abs(v[3]) + (math.sqrt(g * v[4] / v[0]) if v[0] > 0 and v[4] > 0 else 0.0) for v in ref.values())
+    sc = [sc_rho, sc_v, sc_v, sc_v, sc_P]
+    worst, where = 0.0, None
+    if set(ref) != set(st):
+        return float("inf"), ("cell sets differ", None, None, None)
+    for X in ref:
+        for j in range(5):
+            x, y = ref[X][j], st[X][j]
+            if x == y:
+                continue
+            dlt = abs(x - y) / sc[j] if (x == x and y == y and sc[j] > 0) else float("inf")
+            if dlt > worst:
+                worst, where = dlt, (X, ["density", "vx", "vy", "vz", "pressure"][j], x, y)
+    return worst, where
+
+
+def stress_stream(ctx, binary, nsetups, njit):
+    rng = ctx.rng
+    stream = ctx.cov["correspondence_streams"].setdefault("untraced-jitter", {"lines": 0, "mismatches": 0, "oracle_failures": 0})
+    for _ in range(nsetups):
+        layout = rng.choice([(2, 2, 2), (3, 2, 2), (2, 3, 2), (3, 3, 2), (2, 2, 3)])
+        cells = (2, 2, 2)
+        per = rng.choice([(True, True, True), (False, False, False), (True, False, True), (True, True, True)])
+        g = rng.choice(c04.GAMMAS[:4])
+        kind = rng.choice(["random", "jump", "smooth", "random"])
+        ncell = [layout[a] * cells[a] for a in range(3)]
+        box = (1., 1., 1.)
+        states = c04.initial_state(rng, ncell, kind, g, per)
+        # ~10-20 steps: the code halves its time line until the step fits the CFL step (~4e-6 s for these set-ups)
+        total = rng.choice([4.e-5, 6.e-5, 8.e-5])
+        param = c04.make_param(layout, per, cells, g, states, box=box, total_time=total).replace("  type: AsciiFile", "  type: Gadget")
+        setup = dict(param=param, blocks=c04.block_density(ncell, box, states), ncell=ncell, box=box)
+        tag = "layout %s periodic %s gamma %.4g %s total time %g" % (layout, per, g, kind, total)
+        rep0 = dict(layout=layout, cells=cells, per=per, g=g, kind=kind, ncell=ncell, box=box, param=param, blocks=setup["blocks"], stress=True)
+        status, ref, log = stress_run(binary, setup, 1, None)
+        ctx.count()
+        if ref is None:
+            ctx.violation("stress:one-thread-run-" + status.split("(")[0], "the one-thread reference run ended with %s (%s): %s" % (status, tag, log), dict(rep0, threads=1, jitter=None))
+            continue
+        ctx.branch("stress-setups")
+        for _ in range(njit):
+            threads = rng.choice([4, 8, 16])
+            jitter = "%d:%d:%d:%d:%d" % (rng.randrange(1, 10 ** 6), rng.choice([300, 600, 900]), rng.choice([20, 60, 150]), rng.choice([2, 5, 20]), rng.choice([5, 30, 100]))
+            status, st, log = stress_run(binary, setup, threads, jitter)
+            ctx.count()
+            ctx.branch("stress-runs")
+            ctx.branch("stress-threads-%d" % threads)
+            ctx.distinct(("stress", layout, per, kind, threads, jitter))
+            rep = dict(rep0, threads=threads, jitter=jitter,
+                       cmd="LD_PRELOAD=libc10_jitter.so CMAC_VERIF_JITTER10=%s CMacIonize --params run.param --task-based-rhd --threads %d   (no CMAC_VERIF_TRACE)" % (jitter, threads))
+            stream["lines"] += len(ref) * 5
+            if st is None:
+                stream["oracle_failures"] += 1
+                ctx.violation("stress:" + status.split("(")[0].split(":")[0], "untraced run with %d threads under scheduling jitter %s ended with %s (%s): %s" % (threads, jitter, status, tag, log), rep)
+                continue
+            if status != "ok:%s" % "" and ref is not None:
+                pass
+            w, where = stress_compare(ref, st, g)
+            ctx.cov["worst_relative_stress_difference"] = max(ctx.cov.get("worst_relative_stress_difference", 0.0), w if w != float("inf") else 1e300)
+            if w > STRESS_TOL:
+                stream["oracle_failures"] += 1
+                ctx.violation("stress:final-state-depends-on-schedule", "final snapshot of an untraced run with %d threads under scheduling jitter %s differs from the one-thread run of the same set-up: cell %r %s = %r vs %r (relative %.3e > %.1e; %s)"
+                              % (threads, jitter, where[0], where[1], where[3], where[2], w, STRESS_TOL, tag), rep)
+
+
 def run(ctx):
     ctx.level = "proof"
     ctx.assumptions += [
@@ -283,6 +417,7 @@ def run(ctx):
     drv10 = vlib.driver("drv_c10")
     for _ in range(ctx.budget(9, 80)):
         one_case(ctx, binary, drv10, ctx.budget(1200, 3000))
+    stress_stream(ctx, binary, ctx.budget(4, 60), ctx.budget(3, 5))
 
 
 def replay(ctx, path):
